@@ -86,7 +86,7 @@ class C12(HistoryProperty):
         "non-trivial = runs in which the injected fault fired and reached the caller of evaluate()"
     )
     ASSUMPTIONS = ["injected exceptions derive from Exception (not BaseException)", "type-consistent dictionaries"]
-    QUICK = {"runs": 1500, "wall": 45}
+    QUICK = {"runs": 1800, "wall": 45}
     THOROUGH = {"runs": 60000, "wall": 540}
     NONTRIVIAL_MEASURE = "fault_surfaced"
     CAP = {"quick": 14, "thorough": 60}
